@@ -4,6 +4,7 @@ import SJ.Proofs.LexTopParser
 import SJ.Proofs.LexTopF32
 import SJ.Proofs.LexMathTotal
 import SJ.Proofs.LexMathKara
+import SJ.Proofs.TypedFloatLink
 /-!
 # C07 — float_roundtrip: decimal → float conversion is correctly rounded
 
@@ -303,6 +304,82 @@ theorem c07_roundtrip (ext : Spec.Program.Ext) (hext : Spec.Program.ExtOK ext) (
 example : RyuText [0x35, 0x65, 0x2d, 0x33, 0x32, 0x34] ∧
     deFloatRoundtrip false (Spec.Canon.partsOf (Spec.Number.splitNumber [0x35, 0x65, 0x2d, 0x33, 0x32, 0x34])) = .f64 1 := by
   refine ⟨⟨by decide, by decide, by decide⟩, by decide +kernel⟩
+
+/-! ## the typed entry points (`deserialize_f64`, `deserialize_f32`, and every other numeric target) -/
+
+/-- **c07_typed_f32_link.** The typed text deserializer's number path (`Model.Typed.deNumber`: `deserialize_number`, i.e.
+    `deserialize_i8 … u64`, `deserialize_f32`, `deserialize_f64`) is, for every build, target, source and input whose unread
+    part is shorter than `2^29 - 20` bytes: skip whitespace, scan the literal (`scanNumber` = `parse_integer`), convert
+    the scanned parts with `SJ.Proofs.TypedFloat.typedNumber` — `Model.Lexical.deFloatRoundtrip single_precision` under
+    `float_roundtrip` (`single_precision` exactly for an `f32` target), `Model.Num.convertDefault` otherwise — and hand the
+    `ParserNumber` to the target's visitor. In particular `Model.Typed.f32Roundtrip` (the model of `single_precision = true`)
+    is `deFloatRoundtrip true` followed by serde's `f32` visitor (second conjunct), so `c07_correct`, `c07_nearest_even`
+    (through `c07_typed_nearest` below) and, in the default build, C08's theorems about `convertDefault` speak about the
+    typed targets. -/
+theorem c07_typed_f32_link (env : Model.Typed.Env) (ty : Model.Typed.NumTy) (rest : Bytes) (pos : Nat)
+    (hlen : rest.length + 20 < 2 ^ 29) :
+    Model.Typed.deNumber env ty rest pos =
+      (Model.Typed.withPeek env .EofWhileParsingValue rest pos fun b r p =>
+        if Model.Typed.isNumStart b then
+          (Model.Typed.scanNumber env (b :: r) p).bind fun parts rest' pos' =>
+            match SJ.Proofs.NumLink.numOfNRes (SJ.Proofs.TypedFloat.typedNumber env ty parts) with
+            | some n => Model.Typed.fixPos env true (Model.Typed.ofVisit (Model.Typed.visitNumber ty n) rest' pos')
+            | none => .err .NumberOutOfRange (Model.Typed.peekErrorIdx rest' pos')
+        else Model.Typed.peekInvalidType env (b :: r) p) ∧
+    (∀ p : Parts, WF p → (p.int ++ p.frac.getD []).length + 20 < 2 ^ 29 →
+      Model.Typed.f32Roundtrip p = SJ.Proofs.TypedFloat.f32OfNRes (deFloatRoundtrip true p)) ∧
+    (∀ r : NRes, SJ.Proofs.TypedFloat.f32OfNRes r =
+      match SJ.Proofs.NumLink.numOfNRes r with
+      | some n => (match Model.FromValue.numberF32 {} n with | .ok (.f32 b) => some b | _ => none)
+      | none => none) :=
+  ⟨SJ.Proofs.TypedFloat.deNumber_link env ty rest pos hlen,
+   fun p wf hl => SJ.Proofs.TypedFloat.f32Roundtrip_eq p wf hl, SJ.Proofs.TypedFloat.f32OfNRes_eq⟩
+
+/-- non-vacuity: the witness of finding C07-f32-negint through the typed entry point: `from_str::<f32>("-9223372586610589697")`
+    under `float_roundtrip` is `0xdf000001`; and `0.1` as `f32` is `0x3dcccccd` -/
+example :
+    (match Model.Typed.deTypedTop { cfg := { fr := true } } .f32
+      [0x2d,0x39,0x32,0x32,0x33,0x33,0x37,0x32,0x35,0x38,0x36,0x36,0x31,0x30,0x35,0x38,0x39,0x36,0x39,0x37] with
+     | .ok (.f32 b) => b == 0xdf000001 | _ => false) = true ∧
+    (match Model.Typed.deTypedTop { cfg := { fr := true } } .f32 [0x30, 0x2e, 0x31] with
+     | .ok (.f32 b) => b == 0x3dcccccd | _ => false) = true := by decide +kernel
+
+/-- **c07_typed_nearest.** `float_roundtrip`, typed targets: when `parse_integer` has scanned a literal on the float path
+    (a fraction or an exponent, an integer beyond `u64` / `i64`, or `-0`) whose exponent digits pass the `i32` guard,
+    `deserialize_f64` returns *the* IEEE round-to-nearest-even `f64` of the literal's exact decimal value (`IsNearestEven64`)
+    and `deserialize_f32` *the* nearest-even `f32` (`IsNearestEven32`: rounded once, straight to binary32), each leaving the
+    reader right after the literal; the literal is rejected (`NumberOutOfRange`) exactly when that value would be
+    infinite. (Integer literals within `u64` / `i64` are cast by serde's visitor: `c07_other_literals`.) -/
+theorem c07_typed_nearest (env : Model.Typed.Env) (hfr : env.cfg.fr = true) (b : UInt8) (r : Bytes) (p0 : Nat) (parts : Parts)
+    (rest' : Bytes) (pos' : Nat) (hb : Model.Typed.isNumStart b = true) (hlen : (b :: r).length + 20 < 2 ^ 29)
+    (hsc : Model.Typed.scanNumber env (b :: r) p0 = .ok parts rest' pos') (hic : intClass parts = none) (hfit : ExpFits parts) :
+    (¬ Overflows64 (toNumLit parts).exact.1 (toNumLit parts).exact.2 →
+      ∃ x, Model.Typed.deNumber env .f64 (b :: r) p0 = .ok (.f64 x) rest' pos' ∧
+        IsNearestEven64 parts.neg (toNumLit parts).exact.1 (toNumLit parts).exact.2 x) ∧
+    (Overflows64 (toNumLit parts).exact.1 (toNumLit parts).exact.2 →
+      Model.Typed.deNumber env .f64 (b :: r) p0 = .err .NumberOutOfRange (Model.Typed.peekErrorIdx rest' pos')) ∧
+    (¬ Overflows32 (toNumLit parts).exact.1 (toNumLit parts).exact.2 →
+      ∃ x, Model.Typed.deNumber env .f32 (b :: r) p0 = .ok (.f32 x) rest' pos' ∧
+        IsNearestEven32 parts.neg (toNumLit parts).exact.1 (toNumLit parts).exact.2 x) ∧
+    (Overflows32 (toNumLit parts).exact.1 (toNumLit parts).exact.2 →
+      Model.Typed.deNumber env .f32 (b :: r) p0 = .err .NumberOutOfRange (Model.Typed.peekErrorIdx rest' pos')) := by
+  have hden : 0 < (toNumLit parts).exact.2 := by rw [exact_eq_scale]; exact scale10_den_pos _ _
+  obtain ⟨a1, a2⟩ := SJ.Proofs.Ieee.roundNE64_correct parts.neg _ _ hden
+  obtain ⟨b1, b2⟩ := SJ.Proofs.Ieee.roundNE32_correct parts.neg _ _ hden
+  obtain ⟨h64, h32⟩ := SJ.Proofs.TypedFloat.deNumber_nearest env hfr b r p0 parts rest' pos' hb hlen hsc hic hfit
+  rw [h64, h32]
+  refine ⟨fun h => ?_, fun h => ?_, fun h => ?_, fun h => ?_⟩
+  · obtain ⟨x, hx, hn⟩ := a1 h; exact ⟨x, by rw [hx], hn⟩
+  · rw [a2 h]
+  · obtain ⟨x, hx, hn⟩ := b1 h; exact ⟨x, by rw [hx], hn⟩
+  · rw [b2 h]
+
+/-- non-vacuity: `1e39` is finite as `f64` and out of range as `f32` -/
+example :
+    (match Model.Typed.deTypedTop { cfg := { fr := true } } .f64 [0x31, 0x65, 0x33, 0x39] with
+     | .ok (.f64 b) => b == 0x48078287f49c4a1d | _ => false) = true ∧
+    (match Model.Typed.deTypedTop { cfg := { fr := true } } .f32 [0x31, 0x65, 0x33, 0x39] with
+     | .err .NumberOutOfRange 4 => true | _ => false) = true := by decide +kernel
 
 end SJ.Props.C07
 
